@@ -220,6 +220,14 @@ def dateparse(val: str, t: type[DateTimeT]) -> DateTimeT:
             If `val` is not a date string or does not resolve to an instance of
             the target datetime type.
     """
+    # The parser below ignores the UTC offset of time-only strings, so give the
+    #   standard library the first attempt at an offset-aware time.
+    if issubclass(t, datetime.time):
+        with contextlib.suppress(ValueError):
+            time = datetime.time.fromisoformat(val)
+            if time.tzinfo is not None:
+                return time  # type: ignore[return-value]
+
     try:
         # When `exact=False`, the only two possibilities are DateTime and Duration.
         # A signed duration (`-P1D`) is parsed unsigned, then negated.
